@@ -121,9 +121,9 @@ PROPS = {
     },
     'C13': {
         'verus': [],
-        'kani': ['future_in_span_final_poll', 'future_in_span_pending_poll', 'local_parent_guard_scope'],
+        'kani': ['future_in_span_final_poll', 'future_in_span_pending_poll', 'local_parent_guard_scope', 'future_enter_on_poll'],
         'assumptions': [KANI_ENV, 'per-call contract: each poll is verified for an arbitrary adapter state (span present), which is what the induction over poll sequences needs; thread migration: nothing thread-specific is stored in the adapter (type level)',
-                        'NOT covered: enter_on_poll (recording a LocalSpan exhausts CBMC memory; its body is two lines over LocalSpan::enter_with_local_parent, whose data structure is proved in unit local)'],
+                        'enter_on_poll: EnterOnPoll::poll, LocalSpan::enter_with_local_parent / enter_with_stack and the guard\'s Drop are the real code; LocalSpanStack::enter_span / exit_span are recording stubs in that harness (what they do to the span line is proved in unit local)'],
     },
     'C14': {
         'verus': [],
